@@ -5,8 +5,14 @@ package verifharness
 import (
 	"fmt"
 	"math/rand/v2"
+	"net/http"
+	"net/http/httptest"
+	"os"
+	"path/filepath"
 	"sort"
 	"strings"
+	"sync"
+	"sync/atomic"
 	"testing"
 	"testing/synctest"
 	"time"
@@ -130,6 +136,9 @@ func TestC02(t *testing.T) {
 		}
 		synctest.Test(t, func(t *testing.T) { c02Run(t, run, sc) })
 	}
+	if desc := map[string]any{"kind": "redeploys-under-load"}; run.Mine(n+5000, desc) {
+		c02Load(t, run, desc)
+	}
 	// redeploys that overlap (the later-issued one completes first): the replaced targets are taken
 	// away the moment each deploy returns, and still no client sees an error
 	for k := 0; k < run.N(8, 200); k++ {
@@ -139,6 +148,83 @@ func TestC02(t *testing.T) {
 		}
 		synctest.Test(t, func(t *testing.T) { overlapDeploys(t, run, k, run.Rand(n+k)) })
 	}
+}
+
+// c02Load: the same property under real concurrency (real time, no sockets on the client side): a
+// service is redeployed back and forth between two healthy targets a few hundred times while
+// sixteen clients call the router without rest. Interleavings inside the few instructions between
+// "which target" and "request registered with it" cannot be placed by any hook; they are reached by
+// volume. Every response is a 200 from one of the two targets.
+func c02Load(t *testing.T, run *Run, desc any) {
+	run.Eval()
+	RestoreHTTPDefaults()
+	dir, err := os.MkdirTemp("", "vh-c02-")
+	if err != nil {
+		run.Inconclusive("tempdir: %v", err)
+		return
+	}
+	defer os.RemoveAll(dir)
+	mk := func(name string) *httptest.Server {
+		return httptest.NewServer(http.HandlerFunc(func(w http.ResponseWriter, r *http.Request) { w.Write([]byte(name)) }))
+	}
+	a, b := mk("A"), mk("B")
+	defer a.Close()
+	defer b.Close()
+	router := server.NewRouter(filepath.Join(dir, "state.json"))
+	to := server.TargetOptions{HealthCheckConfig: server.HealthCheckConfig{Path: "/up", Interval: time.Second, Timeout: 5 * time.Second}, ResponseTimeout: 10 * time.Second}
+	addr := func(s *httptest.Server) string { return strings.TrimPrefix(s.URL, "http://") }
+	if err := router.DeployService("svc", []string{addr(a)}, server.ServiceOptions{}, to, 10*time.Second, 5*time.Second); err != nil {
+		run.Inconclusive("deploy: %v", err)
+		return
+	}
+	var stop atomic.Bool
+	var total, bad atomic.Int64
+	var firstBad atomic.Value
+	var wg sync.WaitGroup
+	for c := 0; c < 16; c++ {
+		wg.Add(1)
+		go func() {
+			defer wg.Done()
+			for !stop.Load() {
+				rec := httptest.NewRecorder()
+				router.ServeHTTP(rec, httptest.NewRequest("GET", "http://load.example/", nil))
+				total.Add(1)
+				if body := rec.Body.String(); rec.Code != 200 || (body != "A" && body != "B") {
+					bad.Add(1)
+					firstBad.CompareAndSwap(nil, fmt.Sprintf("status %d body %q", rec.Code, trunc(body, 60)))
+				}
+			}
+		}()
+	}
+	redeploys := 0
+	deadline := time.Now().Add(8 * time.Second)
+	for i := 0; i < 200 && time.Now().Before(deadline); i++ {
+		next := addr(b)
+		if i%2 == 1 {
+			next = addr(a)
+		}
+		if err := router.DeployService("svc", []string{next}, server.ServiceOptions{}, to, 10*time.Second, 5*time.Second); err != nil {
+			stop.Store(true)
+			wg.Wait()
+			run.Inconclusive("redeploy %d failed: %v", i, err)
+			return
+		}
+		redeploys++
+	}
+	stop.Store(true)
+	wg.Wait()
+	router.RemoveService("svc")
+	run.Count("load_redeploys", redeploys)
+	run.Count("load_requests", int(total.Load()))
+	if n := bad.Load(); n > 0 {
+		run.Violate("error-status:under-load", fmt.Sprintf("%d of %d requests sent while the service was redeployed %d times between two healthy targets were not answered by a target; first: %v", n, total.Load(), redeploys, firstBad.Load()), desc, nil)
+		return
+	}
+	if redeploys < 20 || total.Load() < 2000 {
+		run.Inconclusive("load scenario too small to mean anything: %d redeploys, %d requests", redeploys, total.Load())
+		return
+	}
+	run.Class("load|redeploys")
 }
 
 func c02Run(t *testing.T, run *Run, sc c02Scenario) {
